@@ -18,6 +18,7 @@ def run(chk, facts, tier):
     chk.rule('announced-size-bounded', 'receive_size_ is set to l2cap_size + overall_overhead only under l2cap_size <= MTUSize', floor=1)
     chk.rule('start-resets-fill', 'a start fragment that sets receive_size_ also resets receive_buffer_used_ (a repeated start fragment restarts the reassembly)', floor=1)
     chk.rule('deliver-complete-only', 'the reassembled SDU is returned only when receive_buffer_used_ != 0 && receive_size_ == 0', floor=1)
+    chk.rule('free-matches-delivery', 'free_ll_l2cap_received releases the reassembly buffer exactly under the condition under which next_ll_l2cap_received hands it out (used != 0 && remaining == 0), otherwise the link layer PDU', floor=1)
     chk.rule('fragment-alloc-and-type', 'try_send_pdus allocates min(transmit_size_ + overhead, max_tx_size()), copies min(buffer, transmit_size_) bytes and types the fragment start/continuation by first_fragment', floor=3)
     for fn in variants(facts, SB + 'add_to_receive_buffer', chk):
         b, e = fn.params[0]['n'], fn.params[1]['n']
@@ -75,6 +76,16 @@ def run(chk, facts, tier):
                 ats = guard_atoms(fn, r)
                 ok = ok and has_atom(ats, lambda x: is_name(x, 'receive_buffer_used_'), {'!='}, lambda o: cval(o) == 0) and has_atom(ats, lambda x: is_name(x, 'receive_size_'), {'=='}, lambda o: cval(o) == 0)
         chk.instance('deliver-complete-only', fn, '%d returns of the reassembly buffer' % n, ok and n >= 1, '' if ok and n >= 1 else 'an incomplete SDU can be delivered', key='deliver')
+    for fn in variants(facts, SB + 'free_ll_l2cap_received', chk):
+        rs = [st for tgt, op, val, st in stores(fn.body) if is_name(tgt, 'receive_buffer_used_') and cval(val) == 0]
+        fr = fn.body.calls('free_received')
+        if not rs:
+            continue   # MTU 23 specialisation: no reassembly buffer
+        ats = guard_atoms(fn, rs[0])
+        g = has_atom(ats, lambda x: is_name(x, 'receive_buffer_used_'), {'!='}, lambda o: cval(o) == 0) and has_atom(ats, lambda x: is_name(x, 'receive_size_'), {'=='}, lambda o: cval(o) == 0)
+        ok = len(rs) == 1 and len(fr) == 1 and g and not any(a is b for a in [fn.block_of(rs[0])] for b in [fn.block_of(fr[0])])
+        chk.instance('free-matches-delivery', fn, 'reset of the reassembly only if used != 0 && remaining == 0, else free_received()', ok,
+                     '' if ok else 'a link layer PDU handed out while a reassembly is in progress (LL control PDU between fragments) is not freed: it is delivered twice and the partial SDU is dropped', key='free')
     for fn in variants(facts, SB + 'try_send_pdus', chk):
         al = fn.body.calls('allocate_transmit_buffer')
         ok = len(al) == 1 and strip_casts(al[0].args()[0]).is_call('min')
